@@ -929,6 +929,21 @@ func parseSSE(body string) []OutEv {
 	return out
 }
 
+func maxLine(s string) int {
+	m, cur := 0, 0
+	for i := 0; i < len(s); i++ {
+		if s[i] == '\n' {
+			cur = 0
+			continue
+		}
+		cur++
+		if cur > m {
+			m = cur
+		}
+	}
+	return m
+}
+
 func trunc(s string, n int) string {
 	if len(s) > n {
 		return s[:n] + "…"
@@ -946,7 +961,18 @@ type streamResult struct {
 	ctype   string
 }
 
-func runStream(tr *anthropic.Translator, rd io.Reader) streamResult {
+// runStream runs the real stream translator under recover and a watchdog.  The watchdog is 2 s;
+// a run that exceeds it is repeated once with 20 s so that a loaded machine is not mistaken for a
+// hang (mk must hand out a fresh reader over the same bytes).
+func runStream(tr *anthropic.Translator, mk func() io.Reader) streamResult {
+	res := runStreamOnce(tr, mk(), 2*time.Second)
+	if res.timeout {
+		res = runStreamOnce(tr, mk(), 20*time.Second)
+	}
+	return res
+}
+
+func runStreamOnce(tr *anthropic.Translator, rd io.Reader, limit time.Duration) streamResult {
 	ch := make(chan streamResult, 1)
 	go func() {
 		var res streamResult
@@ -968,7 +994,7 @@ func runStream(tr *anthropic.Translator, rd io.Reader) streamResult {
 	select {
 	case r := <-ch:
 		return r
-	case <-time.After(2 * time.Second):
+	case <-time.After(limit):
 		return streamResult{timeout: true, events: []OutEv{}}
 	}
 }
@@ -1126,6 +1152,16 @@ func (e *env) streamCase(class string, lines []Line, comp *completion, withBuffe
 	rd := &renderer{r: r, escMode: r.Intn(3), shuffle: r.Bool()}
 	so := sseOpts{sep: vlib.Pick(r, []string{"\n\n", "\n\n", "\n", "\r\n\r\n", "\n\n\n"}), noFinalNL: r.Chance(1, 6), done: r.Chance(3, 4)}
 	sse := renderSSE(rd, lines, so)
+	// the translator's bufio.Scanner refuses lines over 1 MiB and aborts the stream (documented
+	// assumption of this property, see checks/C13.json): keep every line below that
+	if maxLine(sse) > 1<<20-4096 {
+		rd.escMode = 1
+		sse = renderSSE(rd, lines, so)
+		if maxLine(sse) > 1<<20-4096 {
+			e.c.Count("skipped.line-over-1MiB")
+			return
+		}
+	}
 	ks := []int{0, 1 + r.Intn(5), 1 + r.Intn(5)}
 	if e.thorough || len(sse) < 300 {
 		ks = []int{0, 1, 2, 3, 4, 5}
@@ -1136,7 +1172,8 @@ func (e *env) streamCase(class string, lines []Line, comp *completion, withBuffe
 	var first streamResult
 	equal := true
 	for i, k := range ks {
-		res := runStream(e.tr, reader(r, k, sse))
+		rs := r.Fork()
+		res := runStream(e.tr, func() io.Reader { cp := *rs; return reader(&cp, k, sse) })
 		if i == 0 {
 			first = res
 			continue
@@ -1152,7 +1189,7 @@ func (e *env) streamCase(class string, lines []Line, comp *completion, withBuffe
 	impl := map[string]any{"events": first.events, "err": first.err, "panic": first.panic, "timeout": first.timeout,
 		"chunkings": len(ks), "chunk_equal": equal, "content_type": first.ctype}
 	m := map[string]any{"kind": "stream", "class": class, "lines": lines, "impl": impl}
-	if len(sse) <= 3000 {
+	if len(sse) <= 3000 && !(e.thorough && len(sse) > 1200) {
 		m["sse"] = strings.ToValidUTF8(sse, "\uFFFD")
 	}
 	if comp != nil {
@@ -1273,7 +1310,7 @@ func main() {
 	// ---- completions x renderings x noise
 	n := 3600
 	if e.thorough {
-		n = 220000
+		n = 30000
 	}
 	for i := 0; i < n; i++ {
 		shape := vlib.Pick(r, []int{0, 0, 1, 1, 2, 2, 2, 3, 3, 4})
@@ -1304,7 +1341,7 @@ func main() {
 	// ---- arbitrary interleavings (totality clause)
 	ni := 1200
 	if e.thorough {
-		ni = 80000
+		ni = 10000
 	}
 	for i := 0; i < ni; i++ {
 		e.streamCase("interleaved", e.withNoise(interleavedLines(r), vlib.Pick(r, []int{0, 1, 2})), nil, false)
@@ -1313,7 +1350,7 @@ func main() {
 	// ---- buffered path on its own: odd arguments, shapes TransformResponse rejects
 	nb := 300
 	if e.thorough {
-		nb = 20000
+		nb = 3000
 	}
 	for i := 0; i < nb; i++ {
 		b := bufResp{Calls: []bufCall{}}
